@@ -55,17 +55,24 @@ func hCheckItem(item reportItem, foods []shared.HFood, book *shared.HBook, showE
 }
 
 // Harness_day_item: one log day through NewLogNodeFromElements and GetReportItem under every
-// (Totals, TotalsOnly) setting, against the reference model.
+// (Totals, TotalsOnly) setting, against the reference model. With bound earlier=1 another day
+// (one entry) is reported first: what a day shows does not depend on the days before it.
 func Harness_day_item() {
 	E := verifBound("E", 2)
 	db, book := shared.HGenBook()
-	raw := shared.HGenRawDay(E)
-	foods := shared.HDistinct(raw)
-	ln, err := shared.NewLogNodeFromElements(shared.HTime(0), raw, nil)
-	verifAssert("lognode-no-error", err == nil)
 	cfg := NewDefaultConfig()
 	cfg.Totals = verifChoose("totals", 2) == 1
 	cfg.TotalsOnly = verifChoose("totals-only", 2) == 1
+	if verifBound("earlier", 0) == 1 {
+		raw0 := shared.HGenRawDay(1)
+		ln0, _ := shared.NewLogNodeFromElements(shared.HTime(0), raw0, nil)
+		item0 := GetReportItem(ln0, db, cfg)
+		hCheckItem(item0, shared.HDistinct(raw0), book, !cfg.TotalsOnly, cfg.Totals)
+	}
+	raw := shared.HGenRawDay(E)
+	foods := shared.HDistinct(raw)
+	ln, err := shared.NewLogNodeFromElements(shared.HTime(1), raw, nil)
+	verifAssert("lognode-no-error", err == nil)
 	item := GetReportItem(ln, db, cfg)
 	verifCover("item")
 	verifAssert("item-time", item.Time.Equal(ln.Time))
